@@ -130,6 +130,8 @@ def check(prop, tier, seed, replay=None):
     cov["scripts"]["total"] = len(S)
     pairs = run.run_scripts(S, wd)
     r = run.validate_traces(pairs, plan["twin"], wd, module="TraceTwin", tag=prop)
+    if prop == "C08":
+        run.pair_stats(r, cov, prop)
     cov["states"] += r["states"]
     cov["transitions"] += r["transitions"]
     cov["traces_validated_against_impl"] = r["traces"]
